@@ -25,6 +25,9 @@ MC_ArrayLits == {Lit("arr", <<Q(1,1), Q(2,1), Q(3,1), Q(4,1), Q(5,1), Q(6,1)>>, 
                  Lit("arr", <<Q(1,1), Q(2,1), Q(3,1), Q(4,1)>>, <<2, 2>>),
                  Lit("arr", <<Q(2,1), Q(-1,1), Q(0,1), Q(1,1), Q(3,1), Q(1,2), Q(0,1), Q(-2,1), Q(1,1)>>, <<3, 3>>),
                  Lit("list", <<Q(1,1), Q(-2,1), Q(3,1), Q(0,1), Q(1,2), Q(2,1)>>, <<2, 3>>),
+                 \* the same logical 2x3 / 2x2 values in other memory layouts (Fortran order, a transposed view)
+                 Lit("arrF", <<Q(1,1), Q(2,1), Q(3,1), Q(4,1), Q(5,1), Q(6,1)>>, <<2, 3>>),
+                 Lit("arrT", <<Q(1,1), Q(2,1), Q(3,1), Q(4,1)>>, <<2, 2>>),
                  Lit("arr", <<Q(1,1), Q(2,1), Q(3,1)>>, <<3>>), Lit("arr", <<Q(4,1), Q(-1,1)>>, <<2>>)}
 MC_Slices == { <<NoneI, NoneI, -1>>, <<0, 2, NoneI>> }
 MC_Indices == {0, -1, 1, 3}
